@@ -221,7 +221,15 @@ def binop(E, op, a, b):
     if isinstance(a, NDArray) or isinstance(b, NDArray):
         return nd_binop(E, op, a, b)
     if op in ("|", "&", "-", "^") and isinstance(a, (SSet, set, frozenset)) and isinstance(b, (SSet, set, frozenset)):
-        raise Unsupported("set algebra")
+        def conc(x):
+            if isinstance(x, SSet):
+                if x.items is None:
+                    raise Unsupported("set algebra on a set of symbolic characters")
+                return frozenset(x.items)
+            return frozenset(x)
+        sa, sb = conc(a), conc(b)
+        r = {"|": sa | sb, "&": sa & sb, "-": sa - sb, "^": sa ^ sb}[op]
+        return SSet(items=frozenset(r))
     if E.is_strlike(a) or E.is_strlike(b) or isinstance(a, (tuple, SList, SDict)) or isinstance(b, (tuple, SList, SDict)):
         raise PyExc("TypeError", "unsupported operand types for %s" % op)
     raise Unsupported("binop %s on %r, %r" % (op, type(a).__name__, type(b).__name__))
@@ -1097,6 +1105,24 @@ def b_bin(E, args, kw):
     raise PyExc("TypeError", "object cannot be interpreted as an integer")
 
 
+def b_reversed(E, args, kw):
+    v = E.force(args[0])
+    if isinstance(v, (str, SBin, SHex, SStr)):
+        n = E.seq_len(v)
+        return E.new_heap(SList([E.getitem(v, k) for k in range(n - 1, -1, -1)]))
+    items = E.iterate(v)
+    return E.new_heap(SList(list(reversed(items))))
+
+
+def b_repr(E, args, kw):
+    v = E.force(args[0])
+    if isinstance(v, (bool, int, str)) or v is None:
+        return repr(v)
+    if isinstance(v, (SInt,)):
+        return b_str(E, [v], {})
+    raise Unsupported("repr() of %s" % type(v).__name__)
+
+
 def b_sum(E, args, kw):
     items = E.iterate(E.force(args[0]))
     total = args[1] if len(args) > 1 else 0
@@ -1211,16 +1237,22 @@ def get_method(E, obj, name):
         fn = STR_METHODS.get(name)
         if fn is not None:
             return Builtin("str." + name, lambda E, a, k, fn=fn, obj=obj: fn(E, obj, a, k))
+        if hasattr(str, name):
+            raise Unsupported("str.%s is not modelled" % name)
         raise PyExc("AttributeError", "'str' object has no attribute %r" % name)
     if isinstance(obj, SList):
         fn = LIST_METHODS.get(name)
         if fn is not None:
             return Builtin("list." + name, lambda E, a, k, fn=fn, obj=obj: fn(E, obj, a, k))
+        if hasattr(list, name):
+            raise Unsupported("list.%s is not modelled" % name)
         raise PyExc("AttributeError", "'list' object has no attribute %r" % name)
     if isinstance(obj, SDict):
         fn = DICT_METHODS.get(name)
         if fn is not None:
             return Builtin("dict." + name, lambda E, a, k, fn=fn, obj=obj: fn(E, obj, a, k))
+        if hasattr(dict, name):
+            raise Unsupported("dict.%s is not modelled" % name)
         raise PyExc("AttributeError", "'dict' object has no attribute %r" % name)
     if isinstance(obj, (SSet, set, frozenset)):
         fn = SET_METHODS.get(name)
@@ -1239,9 +1271,22 @@ def get_method(E, obj, name):
     if obj is None:
         raise PyExc("AttributeError", "'NoneType' object has no attribute %r" % name)
     if isinstance(obj, (int, Fraction, SInt, SReal, bool, SBool)):
+        if hasattr(int, name) or hasattr(float, name):
+            raise Unsupported("number.%s is not modelled" % name)
         raise PyExc("AttributeError", "number has no attribute %r" % name)
     if isinstance(obj, Builtin) and name == "__name__":
         return obj.name
+    if isinstance(obj, Builtin) and obj.name == "dict" and name == "fromkeys":
+        def fromkeys(E, a, k):
+            val = a[1] if len(a) > 1 else None
+            out = {}
+            for key in E.iterate(E.force(a[0])):
+                key = E.force(key)
+                if isinstance(key, Sym):
+                    raise Unsupported("dict.fromkeys with symbolic key")
+                out[key] = val
+            return E.new_heap(SDict(out))
+        return Builtin("dict.fromkeys", fromkeys)
     return None
 
 
@@ -1492,11 +1537,23 @@ def d_items(E, d, a, k):
 
 
 def d_update(E, d, a, k):
-    src = E.force(a[0])
-    if isinstance(src, SDict):
-        d.d.update(src.d)
-    else:
-        raise Unsupported("dict.update")
+    if a:
+        src = E.force(a[0])
+        if isinstance(src, SDict):
+            d.d.update(src.d)
+        else:
+            # an iterable of (key, value) pairs
+            for it in E.iterate(src):
+                it = E.force(it)
+                pair = E.iterate(it)
+                if len(pair) != 2:
+                    raise PyExc("ValueError", "dictionary update sequence element has wrong length")
+                key = E.force(pair[0])
+                if isinstance(key, Sym):
+                    raise Unsupported("dict.update with symbolic key")
+                d.d[key] = pair[1]
+    for kk, vv in k.items():
+        d.d[kk] = vv
 
 
 def d_getitem(E, d, a, k):
@@ -1895,6 +1952,16 @@ def b_wrap(E, args, kw):
 
 def make_builtins():
     b = {}
+    from .interp import StaticMethod, ClassMethod
+    b["staticmethod"] = Builtin("staticmethod", lambda E, a, k: StaticMethod(E.force(a[0])))
+    b["classmethod"] = Builtin("classmethod", lambda E, a, k: ClassMethod(E.force(a[0])))
+    b["frozenset"] = Builtin("frozenset", b_set)
+    b["divmod"] = Builtin("divmod", lambda E, a, k: (binop(E, "//", E.force(a[0]), E.force(a[1])),
+                                                     binop(E, "%", E.force(a[0]), E.force(a[1]))))
+    b["reversed"] = Builtin("reversed", b_reversed)
+    b["pow"] = Builtin("pow", lambda E, a, k: binop(E, "**", E.force(a[0]), E.force(a[1])) if len(a) == 2
+                       else binop(E, "%", binop(E, "**", E.force(a[0]), E.force(a[1])), E.force(a[2])))
+    b["repr"] = Builtin("repr", b_repr)
     for name, fn in [("len", b_len), ("int", b_int), ("float", b_float), ("str", b_str), ("bool", b_bool),
                      ("abs", b_abs), ("min", b_min), ("max", b_max), ("range", b_range),
                      ("enumerate", b_enumerate), ("zip", b_zip), ("list", b_list), ("tuple", b_tuple),
